@@ -215,3 +215,83 @@ Proof.
 Qed.
 Lemma weekday_succ n : weekday_of_dn (n + 1) = (weekday_of_dn n + 1) mod 7.
 Proof. unfold weekday_of_dn. lia. Qed.
+
+(** * Order: the derived [Ord] on the packed word is the order of day numbers *)
+Lemma cmpZ_lt a b : a < b -> cmpZ a b = -1.
+Proof. intros H. unfold cmpZ. rewrite (proj2 (Z.compare_lt_iff a b) H). reflexivity. Qed.
+Lemma cmpZ_gt a b : b < a -> cmpZ a b = 1.
+Proof. intros H. unfold cmpZ. rewrite (proj2 (Z.compare_gt_iff a b) H). reflexivity. Qed.
+Lemma cmpZ_eq a : cmpZ a a = 0.
+Proof. unfold cmpZ. rewrite Z.compare_refl. reflexivity. Qed.
+
+Theorem order_spec y1 o1 d1 y2 o2 d2 : repr y1 o1 d1 -> repr y2 o2 d2 ->
+  d_cmp d1 d2 = cmpZ (dn_of_yo y1 o1) (dn_of_yo y2 o2).
+Proof.
+  intros (Hy1 & Ho1 & ->) (Hy2 & Ho2 & ->). unfold d_cmp, mkdate.
+  pose proof (lo_facts_of y1 o1 Ho1) as [F1 _ _ _ R1 _ _].
+  pose proof (lo_facts_of y2 o2 Ho2) as [F2 _ _ _ R2 _ _].
+  destruct (Z_lt_dec y1 y2) as [L|L].
+  { pose proof (dn_le_iff _ _ _ _ Ho1 Ho2 L). rewrite !cmpZ_lt by lia. reflexivity. }
+  destruct (Z_lt_dec y2 y1) as [L2|L2].
+  { pose proof (dn_le_iff _ _ _ _ Ho2 Ho1 L2). rewrite !cmpZ_gt by lia. reflexivity. }
+  assert (y1 = y2) by lia. subst y2. unfold dn_of_yo.
+  destruct (Z_lt_dec o1 o2); [rewrite !cmpZ_lt by lia; reflexivity|].
+  destruct (Z_lt_dec o2 o1); [rewrite !cmpZ_gt by lia; reflexivity|].
+  assert (o1 = o2) by lia. subst o2. rewrite !cmpZ_eq. reflexivity.
+Qed.
+Corollary order_lt_iff y1 o1 d1 y2 o2 d2 : repr y1 o1 d1 -> repr y2 o2 d2 ->
+  (d1 < d2 <-> dn_of_yo y1 o1 < dn_of_yo y2 o2).
+Proof.
+  intros H1 H2. pose proof (order_spec _ _ _ _ _ _ H1 H2) as E. unfold d_cmp, cmpZ in E.
+  destruct (d1 ?= d2) eqn:C1; destruct (dn_of_yo y1 o1 ?= dn_of_yo y2 o2) eqn:C2; try discriminate;
+  rewrite ?Z.compare_eq_iff, ?Z.compare_lt_iff, ?Z.compare_gt_iff in *; lia.
+Qed.
+Corollary date_word_inj y1 o1 d1 y2 o2 d2 : repr y1 o1 d1 -> repr y2 o2 d2 ->
+  dn_of_yo y1 o1 = dn_of_yo y2 o2 -> d1 = d2.
+Proof.
+  intros H1 H2 E. destruct (dn_inj _ _ _ _ (proj1 (proj2 H1)) (proj1 (proj2 H2)) E) as [-> ->].
+  destruct H1 as (_ & _ & ->). destruct H2 as (_ & _ & ->). reflexivity.
+Qed.
+
+(** * Difference of two dates in days *)
+Lemma try_days_small k : -4294967296 <= k <= 4294967296 -> try_days k = Some (mk_td (k * 86400) 0).
+Proof.
+  intros H. unfold try_days, try_unit, checked_mul, chko, Gen.TimeDelta.TD_SECS_PER_DAY.
+  replace (in_i64 (k * 86400)) with true by solve_in.
+  unfold try_seconds, td_new, Gen.TimeDelta.TD_MIN_secs, Gen.TimeDelta.TD_MAX_secs, Gen.TimeDelta.TD_NEW_NANOS_BOUND.
+  replace ((k * 86400 <? -9223372036854776) || (k * 86400 >? 9223372036854775) || (0 >=? 1000000000)
+           || (k * 86400 =? 9223372036854775) && (0 >? as_u32 Gen.TimeDelta.TD_MAX_nanos)
+           || (k * 86400 =? -9223372036854776) && (0 <? as_u32 Gen.TimeDelta.TD_MIN_nanos)) with false by lia.
+  reflexivity.
+Qed.
+
+Theorem signed_duration_since_spec y1 o1 d1 y2 o2 d2 : repr y1 o1 d1 -> repr y2 o2 d2 ->
+  signed_duration_since d1 d2 = Val (mk_td ((dn_of_yo y1 o1 - dn_of_yo y2 o2) * 86400) 0).
+Proof.
+  intros H1 H2.
+  pose proof (repr_acc y1 o1 d1 H1) as A1. destruct (md_of_ordinal (is_leap y1) o1).
+  pose proof (repr_acc y2 o2 d2 H2) as A2. destruct (md_of_ordinal (is_leap y2) o2).
+  destruct A1 as (Ey1 & Eo1 & _). destruct A2 as (Ey2 & Eo2 & _).
+  destruct H1 as (Hy1 & Ho1 & _). destruct H2 as (Hy2 & Ho2 & _).
+  pose proof (year_range_bounds y1 Hy1) as B1. pose proof (year_range_bounds y2 Hy2) as B2.
+  pose proof (lo_facts_of y1 o1 Ho1) as [_ Fo1 _ _ _ _ _]. pose proof (lo_facts_of y2 o2 Ho2) as [_ Fo2 _ _ _ _ _].
+  unfold signed_duration_since, div_mod_floor. rewrite Ey1, Ey2, Eo1, Eo2.
+  rewrite !div_euclid_pos, !rem_euclid_pos by lia. unfold chk.
+  replace (in_i32 (y1 / 400)) with true by solve_in. replace (in_i32 (y2 / 400)) with true by solve_in. cbn [bind].
+  rewrite !as_u32_id by solve_in.
+  rewrite !yo_to_cycle_spec by lia. cbn [bind].
+  assert (V1 : valid_yo (y1 mod 400) o1 = true).
+  { replace (y1 mod 400) with (y1 + 400 * (- (y1 / 400))) by lia. rewrite valid_yo_period. assumption. }
+  assert (V2 : valid_yo (y2 mod 400) o2 = true).
+  { replace (y2 mod 400) with (y2 + 400 * (- (y2 / 400))) by lia. rewrite valid_yo_period. assumption. }
+  pose proof (cyc_bounds (y1 mod 400) o1 ltac:(lia) V1) as C1. pose proof (cyc_bounds (y2 mod 400) o2 ltac:(lia) V2) as C2.
+  assert (N1 : dn_of_yo y1 o1 = dn_of_yo (y1 mod 400) o1 + 146097 * (y1 / 400)).
+  { replace y1 with (y1 mod 400 + 400 * (y1 / 400)) at 1 by lia. apply dn_of_yo_period. }
+  assert (N2 : dn_of_yo y2 o2 = dn_of_yo (y2 mod 400) o2 + 146097 * (y2 / 400)).
+  { replace y2 with (y2 mod 400 + 400 * (y2 / 400)) at 1 by lia. apply dn_of_yo_period. }
+  set (c1 := dn_of_yo (y1 mod 400) o1 + 365) in *. set (c2 := dn_of_yo (y2 mod 400) o2 + 365) in *.
+  set (q1 := y1 / 400) in *. set (q2 := y2 / 400) in *.
+  assert (Hq : -656 <= q1 <= 655 /\ -656 <= q2 <= 655) by (unfold q1, q2; lia).
+  chk_ok. chk_ok. chk_ok. chk_ok.
+  rewrite try_days_small by lia. cbn [unwrap]. f_equal. f_equal. lia.
+Qed.
